@@ -8,6 +8,7 @@ Import ListNotations.
 Require MayV.Sync.ChanSpscModel MayV.Sync.ChanSpscInv MayV.Sync.ChanSpscThm MayV.Sync.ChanSpscSpur.
 Require MayV.Sync.ChanMpscModel MayV.Sync.ChanMpscInv MayV.Sync.ChanMpscThm MayV.Sync.ChanMpscAccept MayV.Sync.ChanMpscTime MayV.Sync.ChanMpscTimeAccept.
 From Coq Require Import NArith ZArith.
+Require MayV.Sync.ChanMpmcModel MayV.Sync.ChanMpmcInv MayV.Sync.ChanMpmcThm MayV.Sync.ChanMpmcGiveUp.
 
 (* ======================================== spsc ======================================== *)
 Module Spsc.
@@ -113,3 +114,31 @@ Example C06_mpsc_early_timer_is_refused :
   TReach ts /\ rp (R (base ts)) = RWait /\ now ts = 11 /\ pdl ts = 12 /\ tstep ts (A (Fire RT)) = None.
 Proof. exact early_timer_is_refused. Qed.
 End MpscTime.
+
+(* ======================================== mpmc: a blocked receiver gives up ======================================== *)
+Module Mpmc.
+Import MayV.Sync.ChanMpmcModel MayV.Sync.ChanMpmcInv MayV.Sync.ChanMpmcThm MayV.Sync.ChanMpmcGiveUp.
+
+(* (a) / (c) the park of sem.wait / sem.wait_timeout answers Timeout (cn = false, timed calls only) or Canceled (cn = true):
+   the receiver leaves with that verdict and nothing is popped *)
+Theorem C06_mpmc_giveup_pops_nothing : forall s r cn s', step true true true s (Fire r cn) = Some s' ->
+  rp (Rv s r) = WB /\ (cn = false -> rtimed (Rv s r) = true) /\
+  rp (Rv s' r) = YIdle /\ rres (Rv s' r) = (if cn then RCancel else RTimeout) /\
+  q s' = q s /\ sent s' = sent s /\ rlog s' = rlog s /\ drpd s' = drpd s /\ txp s' = txp s /\ rxp s' = rxp s.
+Proof. exact (mpmc_giveup_pops_nothing true true true). Qed.
+Print Assumptions C06_mpmc_giveup_pops_nothing.
+
+(* the permit is passed on: free permits + held permits are unchanged; a granted waiter that gives up no longer holds
+   one, and it went to the semaphore value (nobody waiting) or to the next waiter (now granted) *)
+Theorem C06_mpmc_giveup_passes_the_permit_on : forall s r cn s', Reach true true true s -> step true true true s (Fire r cn) = Some s' ->
+  sv s' + length (hold s') = sv s + length (hold s) /\
+  (rgr (Rv s r) = true -> ~ In r (hold s') /\ (wq s = [] -> sv s' = S (sv s)) /\
+                          (forall w t, wq s = w :: t -> In w (hold s') /\ rgr (Rv s' w) = true)).
+Proof. exact (mpmc_giveup_passes_the_permit_on true). Qed.
+Print Assumptions C06_mpmc_giveup_passes_the_permit_on.
+
+Example C06_mpmc_the_other_receiver_gets_the_value :
+  let s := run true true true init (sch_giveup ++ [Fire 0 false; RStep 1; RStep 1; RStep 1]) in
+  Reach true true true s /\ rres (Rv s 1) = ROk (0, 0) /\ rlog s = [(1, (0, 0))] /\ q s = [].
+Proof. exact the_other_receiver_gets_the_value. Qed.
+End Mpmc.
